@@ -1983,9 +1983,26 @@ impl<'a> TokenBasedLuaGenerator<'a> {
     fn needs_space(&self, next_character: char) -> bool {
         if let Some(last) = self.output.chars().last() {
             utils::should_break_with_space(last, next_character)
+                || (last == '.'
+                    && (next_character.is_ascii_alphabetic() || next_character == '_')
+                    && self.ends_with_number_dot())
         } else {
             false
         }
+    }
+
+    /// Returns true when the output ends with a number written with a trailing
+    /// dot (like `4.`), which would merge with a following word (`4.or`).
+    fn ends_with_number_dot(&self) -> bool {
+        let mut characters = self.output.chars().rev().skip(1).peekable();
+        if characters.peek().is_none() {
+            return false;
+        }
+        characters
+            .take_while(|c| c.is_ascii_alphanumeric() || *c == '_')
+            .last()
+            .map(|first| first.is_ascii_digit())
+            .unwrap_or(false)
     }
 
     #[inline]
